@@ -36,6 +36,8 @@ pub struct TrustSnap {
     /// per session: (prove state last header hash, request content bytes)
     pub prove: BTreeMap<usize, (Option<Vec<u8>>, Option<Vec<u8>>)>,
     pub raw_last_state: Vec<u8>,
+    /// per session: digest of the whole prove state (last header, difficulty, reorg and last-N lists)
+    pub prove_digest: BTreeMap<usize, Vec<u8>>,
     pub max_script_progress: u64,
     pub min_filtered: u64,
 }
@@ -125,6 +127,19 @@ impl Checker {
                 let ps = st
                     .get_prove_state()
                     .map(|p| p.get_last_header().header().hash().as_slice().to_vec());
+                if let Some(p) = st.get_prove_state() {
+                    let mut d: Vec<u8> = Vec::new();
+                    d.extend_from_slice(p.get_last_header().header().hash().as_slice());
+                    d.extend_from_slice(&p.get_last_header().total_difficulty().to_le_bytes());
+                    for h in p.get_reorg_last_headers() {
+                        d.extend_from_slice(h.hash().as_slice());
+                    }
+                    d.push(0xff);
+                    for h in p.get_last_headers() {
+                        d.extend_from_slice(h.hash().as_slice());
+                    }
+                    s.prove_digest.insert(*session, d);
+                }
                 let pr = st
                     .get_prove_request()
                     .map(|r| r.get_content().as_slice().to_vec());
